@@ -40,7 +40,7 @@ M0(tr) == [cfg |-> tr.cfg, s |-> << >>, hb |-> 0, maxSid |-> 0,
            peerIW |-> 65535, peerMFS |-> 16384,
            grantC |-> 65535, sentC |-> 0, srvGrantC |-> 65535, peerSentC |-> 0,
            goaways |-> <<>>, closed |-> FALSE, connErr |-> FALSE, peerGone |-> FALSE,
-           cur |-> NoFrame, hasCur |-> FALSE, curAfterClose |-> FALSE, blkBad |-> FALSE, desync |-> FALSE, gaPc |-> "G1", gaRead |-> 0, slPub |-> 0, multi |-> FALSE, allowed |-> {}, obs |-> NoObs,
+           cur |-> NoFrame, hasCur |-> FALSE, curAfterClose |-> FALSE, blkBad |-> FALSE, desync |-> FALSE, pings |-> <<>>, gaPc |-> "G1", gaRead |-> 0, slPub |-> 0, multi |-> FALSE, allowed |-> {}, obs |-> NoObs,
            mustErr |-> FALSE, disp |-> {}, setSent |-> 0, ackRecv |-> 0, closes |-> 0, settledMode |-> FALSE,
            bad |-> {}]
 
@@ -163,7 +163,10 @@ OnSend(mm0, f0) ==
             THEN [r2 EXCEPT !.grant = @ + f.inc] ELSE r2
       m1 == [mm EXCEPT !.cur = f, !.hasCur = TRUE, !.allowed = al, !.obs = NoObs, !.hb = hb1,
                        !.blkBad = IF f.ty \in {T_HEADERS, T_CONT} /\ ~f.eh THEN f.hbad ELSE FALSE,
-                       !.curAfterClose = mm.closed,      \* sent into a connection the server had already closed: nothing to judge
+                       !.curAfterClose = mm.closed,
+                       \* a well-formed PING awaits its acknowledgement (6.7), in order, with the same opaque data
+                       !.pings = IF f.ty = T_PING /\ ~f.ack /\ f.sid = 0 /\ f.len = 8 /\ al = {P} /\ ~mm.closed /\ ~mm.connErr
+                                 THEN Append(@, f.inc) ELSE @,      \* sent into a connection the server had already closed: nothing to judge
                        \* the only permitted reactions to this frame are connection errors
                        !.mustErr = @ \/ (al # {} /\ \A x \in al : x.k = "cerr"),
                        !.srvGrantC = @ - (IF f.ty = T_DATA THEN f.len ELSE 0),
@@ -248,6 +251,10 @@ OnRecv(mm, f) ==
         LET c1 == FlagIf(mm, f.inc = 0, "C14:zero-increment")
             c2 == FlagIf(c1, Overflows(r.srvGrant - r.flowSent, f.inc), "C14:window-above-max")
         IN Put(c2, f.sid, [r EXCEPT !.srvGrant = IF Overflows(r.srvGrant - r.flowSent, f.inc) THEN @ ELSE @ + f.inc])
+  ELSE IF f.ty = T_PING /\ f.ack THEN
+     \* acknowledgements come back in the order of the PINGs, each with the opaque data of its PING (6.7)
+     IF mm.pings # <<>> /\ Head(mm.pings) = f.inc THEN [mm EXCEPT !.pings = Tail(@)]
+     ELSE Flag(mm, "C08:ping-acknowledgement-without-matching-ping")
   ELSE mm
 
 -----------------------------------------------------------------------------
@@ -322,7 +329,8 @@ Progress(mm, e) ==
       \* in the C09 catalogue every offence is stream-scoped: if it dries up the connection window, every other stream pays
       c3 == FlagIf(c3a, live /\ mm.cfg.noconnerr /\ mm.srvGrantC - mm.peerSentC <= 0, "C09:stream-scoped-offence-starves-the-connection-window")
       c4 == FlagIf(c3, live /\ starvedS # {}, "C14:stream-credit-not-returned")
-      c5 == FlagIf(c4, live /\ mm.ackRecv # mm.setSent, "C18:settings-not-acknowledged-exactly-once")
+      c5a == FlagIf(c4, live /\ mm.ackRecv # mm.setSent, "C18:settings-not-acknowledged-exactly-once")
+      c5 == FlagIf(c5a, live /\ mm.pings # <<>> /\ ~mm.mustErr, "C08:ping-not-acknowledged")
       c6 == FlagIf(c5, e.running > MaxConc(mm), "C13:more-handlers-than-max-concurrent-streams")
       c7 == FlagIf(c6, e.strms > 2 * MaxConc(mm) + 16, "C13:stream-table-exceeds-bound")
       c8 == FlagIf(c7, e.ring > ClosedCap, "C13:closed-stream-memory-exceeds-bound")
